@@ -4,7 +4,14 @@ The module carries its own OVF reader and writer (written from the format descri
 no code with discretisedfield/io/ovf.py):  `ovf_parse` decodes a file into header/mesh/x-fastest
 data and notes every structural problem, `ovf_write` produces OVF 1.0 (big-endian binary, fixed
 three components) and OVF 2.0 (little-endian binary, any component count) files in text, 4-byte
-and 8-byte form.  Bounded: meshes of at most 6 cells per axis, seeded geometry and values."""
+and 8-byte form.  Bounded: meshes of at most 6 cells per axis, seeded geometry and values.
+
+The numbers a field holds do not depend on how its array stores them: next to the ordinary float64 fields the
+module writes fields of every array dtype Field accepts (float16/32/64/longdouble, signed and unsigned ints of
+1..8 bytes, bool, either byte order, complex with zero imaginary part, object) and scalar fields whose array is a
+differently laid-out view (Fortran order, strided, negative strides, permuted axes, broadcast, unaligned, read
+only) in all three representations.  The typed arrays are built from bytes packed by `struct` out of python
+numbers, so the expected file content is known as python numbers without any numpy conversion of the array."""
 import json
 import os
 import re
@@ -23,13 +30,13 @@ CLAUSES = {
     "C09.rt_mesh": "round trip returns the same region corners (equal doubles), mesh unit and cell counts",
     "C09.rt_nvdim": "round trip returns the same component count (3 for an extended scalar)",
     "C09.rt_unit": "round trip returns the same field unit, None staying None",
-    "C09.rt_values": "round trip values: bit-identical for bin8, equal to the float32 rounding for bin4, within 1e-9 relative for txt",
+    "C09.rt_values": "round trip values: bit-identical for bin8, equal to the float32 rounding for bin4, within 1e-9 relative for txt - of the numbers the field holds, whatever dtype, byte order and memory layout its array has (ints: nearest double / nearest float32 of the exact integer)",
     "C09.rt_labels": "component labels of vector fields come back unchanged",
     "C09.rt_subregions": "subregions (names, order, corners) come back unchanged through the side-car file",
     "C09.extend_scalar": "extend_scalar stores a scalar X as (X, 0, 0) and leaves vector fields as they are",
     "C09.written_is_ovf2": "the written file is a well-formed single-segment OVF 2.0 file (magic line, segment/header/data brackets, required keys, valuedim labels and 1 or valuedim units, check value, exact data length, matching End: Data)",
     "C09.written_mesh": "an independent reader decodes the written header to the same mesh: xmin..zmax == corners, xnodes == n, xstepsize == edges/n and xbase == pmin+cell/2 (4 ulp of the coordinate scale), meshunit",
-    "C09.written_data": "an independent reader decodes the written data block to the field values in x-fastest order (bin8 exact, bin4 float32 rounding, txt 1e-9 relative), valuedim components",
+    "C09.written_data": "an independent reader decodes the written data block to the field values in x-fastest order (bin8 exact, bin4 float32 rounding, txt 1e-9 relative), valuedim components; for every array dtype / byte order / memory layout of the field the decoded numbers are the numbers the array holds",
     "C09.sidecar_file": "the side-car file <name>.subregions.json decodes (plain json) to the subregion names and corners",
     "C09.foreign_reads": "a file of the independent OVF 1.0/2.0 writer (text, binary 4, binary 8) is read without error",
     "C09.foreign_mesh": "a foreign file is read to the writer's corners, cell counts and mesh unit",
@@ -42,6 +49,10 @@ CLAUSES = {
 RULE = ("seeded 3-d meshes (1..6 cells per axis, anisotropic, scale 10^U(-12,6), either corner order, int corners class) x "
         "nvdim 1..5 x labels (default, custom, upper case, with underscore, with non-word character) x unit (None, strings) x "
         "representation txt/bin4/bin8 x extend_scalar x subregions 0..3 x value class (normal, full float64 range incl. subnormal/max/-0.0); "
+        "array of the field: every dtype Field accepts (float16/32/64/longdouble, (u)int8..64, bool, python type names, little and big endian, "
+        "complex with zero imaginary part, object) x txt/bin4/bin8 x value class (normal, full range of the dtype incl. min/max/2^24+1/2^53+1/"
+        "subnormals) x 1..4 components, and scalar fields whose array was assigned as a view (C, Fortran, strided inside a garbage buffer, negative "
+        "strides, permuted axes, broadcast, unaligned, read-only) x 9 dtypes x txt/bin4/bin8 x extend_scalar; typed fields above the write chunk; "
         "foreign files: OVF 1.0/2.0 x txt/bin4/bin8 x number format x text quirks (leading/trailing/double blanks) x unit and label styles; "
         "faults: files of the library and of the own writer (OVF 1.0 big endian, OVF 2.0), every (thorough) / strided (quick) cut position of "
         "the data block, every byte of the check value x all 255 (thorough) / 24 (quick) other byte values; "
@@ -50,6 +61,10 @@ ASSUMPTIONS = [
     "bounded: meshes <= 6 cells per axis (plus one or two fields just above the 100000-value write chunk), <= 5 components, seeded sample of geometry/values; finite values only (no nan/inf in the field)",
     "foreign OVF 1.0 files carry valuemultiplier 1 (as OOMMF writes them); labels/units contain no blanks and no colon",
     "trusted: python float()/repr, struct, numpy.frombuffer, json for the independent reader/writer",
+    "typed arrays: built by numpy.frombuffer over struct-packed python numbers (long double: double * (1 + u*2^-60), expected = that double; "
+    "complex: imaginary part 0; object: python floats); trusted: python int -> float conversion, numpy float64 -> float32 rounding; "
+    "arrays that are not fresh C-ordered copies only reach a Field through `field.array = <(nx,ny,nz) array>` of a scalar field, so layouts are "
+    "enumerated for scalar fields only; a case whose field does not hold the given numbers/dtype is counted trivial",
     "short data block = the file is cut (truncation points of the quantifier); a block shortened in the middle with the footer intact is not enumerated",
 ]
 
@@ -263,16 +278,17 @@ def same_bits(a, b):
     return a.shape == b.shape and a.tobytes() == b.tobytes()
 
 
-def values_agree(got, want, rep):
-    """the statement's value criterion per representation"""
+def values_agree(got, want, rep, want32=None):
+    """the statement's value criterion per representation; `want` = the numbers as nearest doubles, `want32` = the numbers as
+    nearest float32 (default: the float32 rounding of `want`, right whenever the numbers are doubles)"""
     got, want = np.asarray(got, dtype=np.float64), np.asarray(want, dtype=np.float64)
     if got.shape != want.shape:
         return False
     if rep == "bin8":
         return same_bits(got, want)
     if rep == "bin4":
-        w = f32(want)
-        return bool(np.array_equal(got, w))
+        w = f32(want) if want32 is None else np.asarray(want32, dtype=np.float64)
+        return w.shape == got.shape and bool(np.array_equal(got, w))
     with np.errstate(all="ignore"):
         return bool(np.all(np.abs(got - want) <= 1e-9 * np.abs(want)))
 
@@ -296,6 +312,156 @@ def from_xfastest(data, n):
             for ix in range(nx):
                 out[ix, iy, iz] = data[ix + nx * (iy + ny * iz)]
     return out
+
+
+# ------------------------------------------------------------------ typed arrays (array dtype / memory layout of the field)
+# dtype string -> struct format character (None: built through numpy, see typed_values)
+STRUCT_CHAR = {"f2": "e", "f4": "f", "f8": "d", "i1": "b", "u1": "B", "i2": "h", "u2": "H", "i4": "i", "u4": "I",
+               "i8": "q", "u8": "Q", "b1": "?"}
+DTYPES = ["<f2", ">f2", "<f4", ">f4", "<f8", ">f8", "longdouble", "float32", "float", "int", "bool",
+          "|i1", "|u1", "<i2", ">i2", "<u2", ">u2", "<i4", ">i4", "<u4", ">u4", "<i8", ">i8", "<u8", ">u8", "|b1",
+          "<c8", "<c16", ">c16", "O"]
+LAYOUTS = ["C", "F", "strided", "negstride", "perm", "broadcast", "unaligned", "readonly"]
+LAYOUT_DTYPES = ["<f8", ">f8", "<f4", "<i8", "<i4", ">i4", "<u2", "|b1", "longdouble"]
+FLOAT_RANGE = {2: (-7, 4, 65504.0, 5.960464477539063e-08, 6.103515625e-05),
+               4: (-44, 38, 3.4028234663852886e38, 1.401298464324817e-45, 1.1754943508222875e-38),
+               8: (-307, 308, np.finfo(float).max, 5e-324, np.finfo(float).tiny)}
+
+
+def int_to_f32(v):
+    """the float32 nearest to the python int v (ties to even), by integer arithmetic; returned as a python float"""
+    a = abs(v)
+    e = a.bit_length() - 24
+    if e <= 0:
+        return float(v)
+    q, r, half = a >> e, a & ((1 << e) - 1), 1 << (e - 1)
+    if r > half or (r == half and (q & 1)):
+        q += 1
+    return float(q << e) if v > 0 else -float(q << e)
+
+
+def _float_numbers(rng, count, nbytes, vmode):
+    """python floats that are exactly representable in the binary float format of nbytes (2, 4, 8) bytes"""
+    lo, hi, fmax, fsub, ftiny = FLOAT_RANGE[nbytes]
+    if vmode == "normal":
+        x = rng.normal(size=count) * 10.0 ** rng.integers(-3, 4 if nbytes == 2 else 7)
+    else:
+        x = rng.choice([-1.0, 1.0], size=count) * rng.uniform(1, 10, size=count) * 10.0 ** rng.integers(lo, hi, size=count)
+        special = [0.0, -0.0, fmax, -fmax, ftiny, fsub, -fsub, 1 / 3, 16777217.0, 2049.0, 0.1, -1e-5] if vmode == "full" else []
+        for p, sp in zip(rng.permutation(count)[:len(special)], special):
+            x[p] = sp
+    x = np.clip(x, -fmax, fmax)
+    if nbytes == 8:
+        return [float(v) for v in x]
+    ch = STRUCT_CHAR["f%d" % nbytes]
+    out = []
+    for v in x:
+        try:
+            out.append(struct.unpack("<" + ch, struct.pack("<" + ch, float(v)))[0])
+        except OverflowError:  # rounds beyond the largest finite value of the format
+            out.append(fmax if v > 0 else -fmax)
+    return out
+
+
+def _int_numbers(rng, count, lo, hi, vmode):
+    """python ints in lo..hi"""
+    if vmode == "normal":
+        return [int(v) for v in rng.integers(max(lo, -1000), min(hi, 1000), size=count, endpoint=True)]
+    out = []
+    width = hi.bit_length()
+    for _ in range(count):
+        bits = int(rng.integers(1, width + 1))  # every magnitude class, not only the top of the range
+        v = (int(rng.integers(0, 1 << 62)) * 4 + int(rng.integers(4))) & ((1 << bits) - 1)
+        if lo < 0 and rng.integers(2):
+            v = -v - 1
+        out.append(min(max(v, lo), hi))
+    special = [lo, hi, 0, 1, (1 << 24) + 1, -(1 << 24) - 1, (1 << 24) + 3, (1 << 53) + 1, -(1 << 53) - 1, (1 << 53) + 3,
+               (1 << 63) - 1, (1 << 63) + (1 << 10), (1 << 31) - 1, -(1 << 31), (1 << 32) - 1, 1234567, 0x3FF0000000000000]
+    special = [v for v in special if lo <= v <= hi]
+    for p, sp in zip(rng.permutation(count)[:len(special)], special):
+        out[int(p)] = sp
+    return out
+
+
+def typed_values(seed, shape, ds, vmode):
+    """(array of dtype `ds` and C layout, float64 array of the numbers rounded to nearest double, float64 array holding the
+    numbers rounded to nearest float32).  For struct-representable dtypes the array is a buffer of bytes packed from python
+    numbers in the dtype's byte order; the expectations are computed from the python numbers."""
+    rng = np.random.default_rng(seed)
+    dt = np.dtype(ds)
+    count = int(np.prod(shape))
+    key = "%s%d" % (dt.kind, dt.itemsize)
+    order = ">" if dt.byteorder == ">" else "<" if dt.byteorder == "<" else ("<" if np.little_endian else ">")
+    if dt.byteorder == "|":
+        order = "<"
+    if dt.kind == "f" and dt.itemsize in (2, 4, 8):
+        nums = _float_numbers(rng, count, dt.itemsize, vmode)
+        w64 = np.array(nums, dtype=np.float64)
+        w32 = f32(w64)
+    elif dt.kind in "iu":
+        info = np.iinfo(dt)
+        nums = _int_numbers(rng, count, int(info.min), int(info.max), vmode)
+        w64 = np.array([float(v) for v in nums], dtype=np.float64)  # python int -> float is correctly rounded
+        w32 = np.array([int_to_f32(v) for v in nums], dtype=np.float64)
+    elif dt.kind == "b":
+        nums = [bool(v) for v in rng.integers(0, 2, size=count)]
+        w64 = np.array([1.0 if v else 0.0 for v in nums])
+        w32 = w64.copy()
+    elif dt.kind == "f":  # long double: a double plus a perturbation far below half an ulp of the double
+        hi = np.array(_float_numbers(rng, count, 8, "normal" if vmode == "normal" else "full-nospecial"))
+        u = rng.uniform(-1, 1, size=count)
+        with np.errstate(all="ignore"):
+            arr = (hi.astype(dt) * (dt.type(1) + u.astype(dt) * dt.type(2.0 ** -60))).astype(dt)
+        return arr.reshape(shape), hi.reshape(shape), f32(hi).reshape(shape)
+    elif dt.kind == "c":  # real numbers held in a complex array (imaginary part zero)
+        nums = _float_numbers(rng, count, dt.itemsize // 2, vmode)
+        w64 = np.array(nums, dtype=np.float64)
+        arr = np.array([complex(v, 0.0) for v in nums], dtype=dt)
+        return arr.reshape(shape), w64.reshape(shape), f32(w64).reshape(shape)
+    elif dt.kind == "O":
+        nums = _float_numbers(rng, count, 8, vmode)
+        arr = np.empty(count, dtype=object)
+        for i, v in enumerate(nums):
+            arr[i] = v
+        w64 = np.array(nums, dtype=np.float64)
+        return arr.reshape(shape), w64.reshape(shape), f32(w64).reshape(shape)
+    else:
+        raise ValueError("no value generator for dtype %r" % ds)
+    blob = struct.pack(order + STRUCT_CHAR[key] * count, *nums)
+    arr = np.frombuffer(blob, dtype=dt.newbyteorder(order) if dt.itemsize > 1 else dt).copy()
+    return arr.reshape(shape), w64.reshape(shape), w32.reshape(shape)
+
+
+def make_view(v, layout):
+    """a 3-d array with the layout asked for and (returned second) the numbers it holds logically, as index map:
+    returns (view, broadcast: bool)"""
+    nx, ny, nz = v.shape
+    if layout == "C":
+        return np.ascontiguousarray(v), False
+    if layout == "F":
+        return np.asfortranarray(v), False
+    if layout == "strided":
+        big = np.empty((2 * nx + 1, 3 * ny + 2, 2 * nz), dtype=v.dtype)
+        big.reshape(-1)[...] = (np.arange(big.size) % 97 + 1).astype(v.dtype)
+        sl = big[1::2, 2::3, 0::2]
+        sl[...] = v
+        return sl, False
+    if layout == "negstride":
+        return np.ascontiguousarray(v[::-1, ::-1, ::-1])[::-1, ::-1, ::-1], False
+    if layout == "perm":
+        return np.ascontiguousarray(v.transpose(2, 0, 1)).transpose(1, 2, 0), False
+    if layout == "broadcast":
+        return np.broadcast_to(np.ascontiguousarray(v[:, :1, :1]), v.shape), True
+    if layout == "unaligned":
+        buf = bytearray(v.nbytes + 1)
+        a = np.ndarray(v.shape, dtype=v.dtype, buffer=buf, offset=1)
+        a[...] = v
+        return a, False
+    if layout == "readonly":
+        a = np.ascontiguousarray(v).copy()
+        a.setflags(write=False)
+        return a, False
+    raise ValueError(layout)
 
 
 # ------------------------------------------------------------------ case enumeration
@@ -421,6 +587,43 @@ def cases(ctx):
                 base = {"source": source, "rep": rep, "p1": p1, "p2": p2, "n": n, "vd": vd, "seed": int(rng.integers(1 << 30))}
                 yield "truncate", dict(base, stride=(7 if quick else 1))
                 yield "checkvalue", dict(base, nalt=(24 if quick else 255))
+    # ---- round trips of fields whose array is not a fresh C-ordered float64 array (enumerated last: the cases above keep
+    #      their parameters).  Every array dtype x every representation, so every pairing of item width and byte order of
+    #      the array with the width of the file's numbers occurs.
+    def typed_case(ds, rep, nvdim, **kw):
+        p1, p2, n, _s = _rand_mesh(rng, False, rng.integers(6) == 0)
+        labels = None
+        if nvdim > 1:
+            ls = LABELSETS[nvdim][:3]  # labels the reader recovers (no underscore / non-word characters)
+            labels = ls[int(rng.integers(len(ls)))]
+        case = {"p1": p1, "p2": p2, "n": n, "nvdim": nvdim, "vdims": labels,
+                "unit": UNITS[int(rng.integers(len(UNITS)))] if rng.integers(3) else None,
+                "meshunit": MESHUNITS[int(rng.integers(len(MESHUNITS)))], "rep": rep,
+                "ext": bool(rng.integers(2)) if nvdim == 1 else False,
+                "suffix": [".ovf", ".omf", ".ohf"][int(rng.integers(3))], "subs": [],
+                "vmode": ["normal", "full", "full"][int(rng.integers(3))], "seed": int(rng.integers(1 << 30)), "dtype": ds}
+        case.update(kw)
+        return case
+
+    for _ in range(1 if quick else 12):
+        for ds in DTYPES:
+            for rep in ("txt", "bin4", "bin8"):
+                yield "roundtrip", typed_case(ds, rep, int(rng.choice([1, 1, 2, 3, 3, 4])))
+        for layout in LAYOUTS:
+            for ds in LAYOUT_DTYPES:
+                for rep in ("txt", "bin4", "bin8"):
+                    yield "roundtrip", typed_case(ds, rep, 1, layout=layout)
+    # extend_scalar on and off for the arrays as wide as the file's numbers
+    for ds, rep in (("<i8", "bin8"), ("<u8", "bin8"), (">f8", "bin8"), ("<c8", "bin8"), ("<i4", "bin4"), ("<u4", "bin4"), (">f4", "bin4")):
+        for ext in (False, True):
+            yield "roundtrip", typed_case(ds, rep, 1, ext=ext, vmode="full")
+            yield "roundtrip", typed_case(ds, rep, 1, ext=ext, vmode="normal", layout="perm")
+    # typed fields larger than the writer's chunk of 100000 values
+    big = [("<i8", "bin8")] if quick else [("<i8", "bin8"), ("<i4", "bin4"), (">f8", "bin8"), ("<f4", "bin4"), ("<f4", "bin8")]
+    for ds, rep in big:
+        yield "roundtrip", {"p1": [-1e-7, 0.0, 2e-8], "p2": [1.4e-7, 7.4e-8, -2e-8], "n": [48, 37, 20], "nvdim": 3, "vdims": None,
+                            "unit": "A/m", "meshunit": "m", "rep": rep, "ext": False, "suffix": ".omf", "subs": [], "vmode": "full",
+                            "seed": 21, "dtype": ds}
 
 
 # ------------------------------------------------------------------ checks
@@ -434,9 +637,54 @@ def _build_field(pr):
         subs[name] = df.Region(p1=tuple(pmin + np.array(lo) * cell), p2=tuple(pmin + np.array(hi) * cell))
     mesh = df.Mesh(region=region, n=tuple(n), subregions=subs)
     nvdim = pr["nvdim"]
-    arr = make_values(pr["seed"], (*n, nvdim), pr["vmode"])
-    f = df.Field(mesh, nvdim=nvdim, value=arr, vdims=pr.get("vdims"), unit=pr.get("unit"))
-    return f, arr, subs
+    ds, layout = pr.get("dtype"), pr.get("layout")
+    if ds is None and layout is None:
+        arr = make_values(pr["seed"], (*n, nvdim), pr["vmode"])
+        f = df.Field(mesh, nvdim=nvdim, value=arr, vdims=pr.get("vdims"), unit=pr.get("unit"))
+        return f, arr, None, subs
+    # the field's array has the dtype / memory layout asked for; the numbers are known as python numbers (typed_values)
+    typed, w64, w32 = typed_values(pr["seed"], (*n, nvdim), ds, pr["vmode"])
+    if layout is None:
+        f = df.Field(mesh, nvdim=nvdim, value=typed, vdims=pr.get("vdims"), unit=pr.get("unit"), dtype=ds)
+        logical = typed
+    else:
+        # public route to an array that is not a fresh C-ordered one: assigning an (nx, ny, nz) array to a scalar field
+        view, bc = make_view(typed[..., 0], layout)
+        if bc:
+            w64 = np.ascontiguousarray(np.broadcast_to(w64[:, :1, :1, :], w64.shape))
+            w32 = np.ascontiguousarray(np.broadcast_to(w32[:, :1, :1, :], w32.shape))
+        f = df.Field(mesh, nvdim=1, unit=pr.get("unit"))
+        f.array = view
+        logical = np.array(view)[..., np.newaxis]
+    held = f.array
+    if held.shape != logical.shape or held.dtype != np.dtype(ds) or not all(
+            a == b for a, b in zip(held.reshape(-1).tolist(), logical.reshape(-1).tolist())):
+        raise NotHeld("the field does not hold the %s numbers it was given (array dtype %s)" % (ds, held.dtype))
+    return f, w64, w32, subs
+
+
+class NotHeld(Exception):
+    """the Field constructor / array setter did not keep the typed array (not the subject of this property)"""
+
+
+def _typed_sig(pr, got=None, want=None, error=None):
+    """signatures of the failure classes that belong to the array dtype of the field (text representation only)"""
+    ds = pr.get("dtype")
+    if ds is None or pr["rep"] != "txt":
+        return None
+    dt = np.dtype(ds)
+    if dt.kind == "c" and error is not None and re.search(r"could not convert string to float: '[^']*j\)?'", repr(error)):
+        return "complex-array-txt-tokens-not-numbers"
+    if dt.kind == "b" and error is not None and re.search(r"could not convert string to float: '(True|False)'", repr(error)):
+        return "bool-array-txt-tokens-True-False"
+    if dt.kind == "f" and dt.itemsize < 8 and got is not None:
+        # right once rounded to the field's own narrow float format (shortest repr of that format was written), not to 1e-9
+        narrow = np.float16 if dt.itemsize == 2 else np.float32
+        g, w = np.asarray(got, dtype=np.float64), np.asarray(want, dtype=np.float64)
+        with np.errstate(all="ignore"):
+            if g.shape == w.shape and np.array_equal(g.astype(narrow).astype(np.float64), w):
+                return "txt-narrow-float-shortest-repr"
+    return None
 
 
 def _label_sig(vdims):
@@ -459,7 +707,10 @@ def check(kind, pr, ctx):
 
 def check_roundtrip(pr, ctx, tmp):
     try:
-        f, arr, subs = _build_field(pr)
+        f, arr, arr32, subs = _build_field(pr)
+    except NotHeld:
+        ctx.trivial()
+        return
     except ValueError:
         if not pr["subs"]:
             raise
@@ -484,12 +735,15 @@ def check_roundtrip(pr, ctx, tmp):
         return
     want_dim = 3 if (ext and nvdim == 1) else nvdim
     want = arr if want_dim == nvdim else np.concatenate([arr, np.zeros((*n, 2))], axis=-1)
+    want32 = None if arr32 is None else (arr32 if want_dim == nvdim else np.concatenate([arr32, np.zeros((*n, 2))], axis=-1))
+    want32x = None if want32 is None else xfastest(want32)
 
     # ---------------- independent decoding of the written bytes
     raw = open(path, "rb").read()
     undecodable, dec = raises(Exception, ovf_parse, raw)
     if undecodable:
-        ctx.require(False, "C09.written_is_ovf2", "independent reader cannot decode the written file", sig=esig, error=repr(dec))
+        ctx.require(False, "C09.written_is_ovf2", "independent reader cannot decode the written file", sig=esig or _typed_sig(pr, error=dec),
+                    error=repr(dec), dtype=pr.get("dtype"))
         if esig:
             ctx.require(False, "C09.extend_scalar", "extend_scalar=True for a vector field writes an undecodable file", sig=esig, error=repr(dec))
     else:
@@ -513,9 +767,12 @@ def check_roundtrip(pr, ctx, tmp):
                    and h["meshunit"] == pr["meshunit"])
             ctx.require(okm, "C09.written_mesh", "header of the written file does not describe the mesh",
                         header={k: h[k] for k in h if k != "desc"}, pmin=pmin, pmax=pmax, n=n)
-            okd = dec["valuedim"] == want_dim and values_agree(dec["data"], xfastest(want), rep)
-            ctx.require(okd, "C09.written_data", "data block of the written file is not the x-fastest field data", sig=esig,
-                        valuedim=dec["valuedim"], want_dim=want_dim)
+            wantx = xfastest(want)
+            okd = dec["valuedim"] == want_dim and values_agree(dec["data"], wantx, rep, want32x)
+            ctx.require(okd, "C09.written_data", "data block of the written file is not the x-fastest field data",
+                        sig=esig or (None if okd else _typed_sig(pr, dec["data"], wantx)),
+                        valuedim=dec["valuedim"], want_dim=want_dim, dtype=pr.get("dtype"), layout=pr.get("layout"),
+                        decoded=dec["data"].reshape(-1)[:6], numbers=wantx.reshape(-1)[:6])
             if esig:
                 ctx.require(okd, "C09.extend_scalar", "extend_scalar changed the data of a vector field", sig=esig)
     if subs:
@@ -535,7 +792,7 @@ def check_roundtrip(pr, ctx, tmp):
     r, g = raises(Exception, df.Field.from_file, path)
     if r:
         ctx.require(False, "C09.rt_reads", "from_file raised on a file written by to_file",
-                    sig=esig or lsig or "from_file-raises", error=repr(g))
+                    sig=esig or lsig or _typed_sig(pr, error=g) or "from_file-raises", error=repr(g))
         return
     # .oef is a fourth extension accepted on input
     oef = os.path.join(tmp, "copy.oef")
@@ -552,12 +809,16 @@ def check_roundtrip(pr, ctx, tmp):
     unit = pr.get("unit")
     ctx.require(g.unit == unit and type(g.unit) is type(unit), "C09.rt_unit", "unit differs after the round trip",
                 sig="unit-None-read-back-as-str" if unit is None and g.unit == "None" else None, got=g.unit, want=unit)
-    okv = g.array.shape == want.shape and values_agree(g.array, want, rep)
-    ctx.require(okv, "C09.rt_values", "values differ after the round trip (%s)" % rep, sig=esig)
+    okv = g.array.shape == want.shape and values_agree(g.array, want, rep, want32)
+    ctx.require(okv, "C09.rt_values", "values differ after the round trip (%s)" % rep,
+                sig=esig or (None if okv else _typed_sig(pr, g.array, want)), dtype=pr.get("dtype"), layout=pr.get("layout"),
+                got=np.asarray(g.array).reshape(-1)[:6], numbers=want.reshape(-1)[:6])
     if ext:
         if nvdim == 1:
-            oke = g.nvdim == 3 and g.array.shape == (*n, 3) and values_agree(g.array[..., 0], arr[..., 0], rep) and not np.any(g.array[..., 1:])
-            ctx.require(oke, "C09.extend_scalar", "extended scalar is not (X, 0, 0)")
+            oke = (g.nvdim == 3 and g.array.shape == (*n, 3) and not np.any(g.array[..., 1:])
+                   and values_agree(g.array[..., 0], arr[..., 0], rep, None if arr32 is None else arr32[..., 0]))
+            ctx.require(oke, "C09.extend_scalar", "extended scalar is not (X, 0, 0)",
+                        sig=None if oke or g.array.shape != want.shape else _typed_sig(pr, g.array, want))
         else:
             ctx.require(g.nvdim == nvdim and okv, "C09.extend_scalar", "extend_scalar changed a vector field", sig=esig)
     if nvdim > 1:
